@@ -278,7 +278,7 @@ impl Property for C08 {
     const ID: &'static str = "C08";
     const RULE: &'static str = "proptest-generated URL (http/https x domain/IPv4/IPv6 host x no/explicit-default/other port x empty or segmented path x query x fragment x userinfo) x \
 {no proxy, http proxy, https proxy per scheme} x proxy host/port forms x proxy credentials; thorough additionally enumerates a 38 880-point product of small component domains. Four routes: direct http, direct https \
-(decrypted channel), plain http via proxy, https via proxy (CONNECT then real TLS to the harness's rustls server). Oracle: dial record, target form, no fragment/userinfo, Host, CONNECT authority. \
+(decrypted channel), plain http via proxy, https via proxy (CONNECT then real TLS to the harness's rustls server). A tunnel to an IPv6-literal origin is refused by the scripted proxy and checked up to there. Oracle: dial record, target form, no fragment/userinfo, Host, CONNECT authority. \
 non-trivial = a proxy is involved or the URL has >= 2 of {explicit port, IPv6, fragment, userinfo, query}";
 
     fn assumptions() -> Vec<String> {
